@@ -356,6 +356,9 @@ func (self *AofFile) ReadTail(lock *AofLock) error {
 		return err
 	}
 	fileSize := fileinfo.Size()
+	if fileSize >= 12 {
+		fileSize -= (fileSize - 12) % 64
+	}
 	if fileSize < 76 {
 		return io.EOF
 	}
